@@ -132,6 +132,10 @@ def judge_points(part, fa, fname, cname, X, Y, rate_key=None):
             region = "inf-argument"
         else:
             cands = cref.cref(fname, x, y, dtname)
+            if cands is not None and fname in ("log", "log2", "log10") and x == 0 and y == 0:
+                # arg(+-0 +- 0i) is 0 or +-pi depending on the signs of both zeros (Annex G): the real part
+                # must be -inf, the imaginary part is not judged here
+                cands = [(c[0], ft(np.nan)) for c in cands]
             if cands is None:
                 bump(part, "skipped_reference_not_converged")
                 continue
@@ -165,8 +169,18 @@ def judge_pair(g, c, real_out):
         if np.isnan(gv):
             return (10**18, "spurious-nan", comp)
         if np.isinf(cv) or np.isinf(gv):
-            if not (gv == cv):
+            if gv == cv:
+                continue
+            # an infinity one step beyond the largest finite value is an ordinary rounding error at the
+            # overflow edge: measure it on the extended lattice (inf = ordinal(max) + 1)
+            fin, infv = (cv, gv) if np.isinf(gv) else (gv, cv)
+            if np.isinf(fin) or np.signbit(fin) != np.signbit(infv):
                 return (10**18, "spurious-or-missing-infinity", comp)
+            omax = int(ordinal(np.finfo(fin.dtype).max))
+            d = omax + 1 - abs(int(ordinal(fin)))
+            if d > 16:
+                return (10**18, "spurious-or-missing-infinity", comp)
+            worst = max(worst, d)
             continue
         if cv != 0 and gv != 0 and np.signbit(cv) != np.signbit(gv):
             d = abs(int(ordinal(gv)) - int(ordinal(cv)))
@@ -185,6 +199,8 @@ def zone(x, y, ft):
         a = abs(float(v))
         if a == 0:
             return "0"
+        if a == 1:
+            return "one"
         if a < float(fi.smallest_normal):
             return "sub"
         if a < 1e-3:
@@ -224,7 +240,13 @@ def inf_reference(fname, x, y, dtname, numpy_value):
                 ok = False
     if not ok:
         return None
-    return [(ft(nre), ft(nim))]
+    cands = [(ft(nre), ft(nim))]
+    ck = cref.cut_kind(fname, x, y)
+    if ck == "real":
+        cands.append((ft(nre), -ft(nim)))
+    elif ck == "imag":
+        cands.append((-ft(nre), ft(nim)))
+    return cands
 
 
 # ------------------------------------------------------------------ lattices and boundary refinement
